@@ -198,6 +198,10 @@ def gen(t):
         items = []
         for name, ty in fields:
             k = classify(ty, subs)
+            if k is None and ty.startswith('HashMap<String') and 'serde_json::Value' in rsx.strip_comments(src.item('struct', S)):
+                # `#[serde(flatten)] original_fields: HashMap<String, serde_json::Value>`: JSON extras, not an MT field
+                w('// %s.%s (%s): JSON extras kept by serde(flatten), not part of the MT layout' % (S, name, 'HashMap<String, serde_json::Value>'))
+                continue
             if k is None:
                 unsupported.append('%s.%s: %s' % (S, name, ty))
                 continue
